@@ -146,7 +146,8 @@ def viol(acc, sig, detail):
     """Keep the smallest detail per signature (par.Acc caps the raw list)."""
     best = acc.__dict__.setdefault("best", {})
     acc.count("violations_raw")
-    k = (len(repr(detail.get("filter"))), detail.get("source", 0), detail.get("target", 0), len(repr(detail)))
+    k = (len(repr(detail.get("filter"))), detail.get("source", 0), detail.get("target", 0), len(repr(detail)),
+         repr(detail))
     if sig not in best or k < best[sig][0]:
         best[sig] = (k, detail)
 
